@@ -63,7 +63,8 @@ Proof.
   destruct (reorder None s2) as [r3 s3] eqn:E3.
   destruct (nt_reorder None s2 r3 s3 Ht1 E3) as [Ht3 Hr3].
   destruct r3 as [[]|e3]; cycle 1.
-  { rewrite (bind_err _ _ _ _ _ E3). by intros [= <- <-]. }
+  { rewrite (bind_err _ _ _ _ _ E3). intros [= <- <-]. split; [done|].
+    intros [= ->]. by apply Hr3. }
   rewrite (bind_ok _ _ _ _ _ E3). cbn [bind get modify].
   unfold bind at 1, catch at 1.
   destruct (func (s3 <| rctx := true |>)) as [r4 s4] eqn:E4.
